@@ -244,7 +244,7 @@ inductive Prog
   | mem (m : Mem) (k : Prog)
   /-- the code reads the current state to decide how to go on -/
   | dyn (f : St → Prog)
-  /-- `try: body  except Exception: handler; raise` then `k` -/
+  /-- `try: body  except BaseException: handler; raise` then `k` -/
   | guard (body handler k : Prog)
 
 /-- database error injected at the k-th statement of the operation -/
@@ -281,7 +281,6 @@ def run (sch : Schema) (inj : Option Inj) : Prog → St → St × Option Err
     match run sch inj b s with
     | (s1, none) => run sch inj k s1
     | (s1, some e) =>
-      if e = .interrupt then (s1, some e) else
       match run sch inj h s1 with
       | (s2, none) => (s2, some e)
       | (s2, some e2) => (s2, some e2)
@@ -307,16 +306,40 @@ inductive Extra
   | unknown    -- no such attribute: TypeError
   | okProp     -- a property whose setter works (and writes nothing)
   | badProp    -- a property whose setter raises AttributeError
+  /-- a ForeignKey given by object (`x=obj`, not a plain setter): `setattr` writes the column at once -/
+  | fk (col : Nat) (v : Val)
   deriving DecidableEq, Repr
 
 def validates (kw : List (Nat × In)) (k : Prog) : Prog :=
   kw.foldr (fun a acc => .validate a.2.isOk acc) k
 
-def extras (ex : List Extra) (k : Prog) : Prog :=
+/-- `setattr(self, name, value)` for one already converted column value (`_SO_setValue`) -/
+def attrProg (sch : Schema) (c id col : Nat) (v : Val) (k : Prog) : Prog :=
+  if (clsOf sch c).lazy then
+    .event 1 <| .mem (.pend c id [(col, v)]) <| .mem (.dirty c id true) k
+  else
+    .event 1 <| .stmt (.update c id [(col, v)]) <| .mem (.cache c id [(col, v)]) <| .event 2 k
+
+/-- the loop over the non-column keywords: `setattr(self, name, value)` each, in order -/
+def extras (sch : Schema) (c id : Nat) (ex : List Extra) (k : Prog) : Prog :=
   ex.foldr (fun e acc => match e with
     | .unknown => .fail .typeError
     | .badProp => .fail .attrError
-    | .okProp => acc) k
+    | .okProp => acc
+    | .fk col v => attrProg sch c id col v acc) k
+
+/-- the same loop while creating (nothing is written before the INSERT) -/
+def extrasPure (ex : List Extra) (k : Prog) : Prog :=
+  ex.foldr (fun e acc => match e with
+    | .unknown => .fail .typeError
+    | .badProp => .fail .attrError
+    | _ => acc) k
+
+def hasUnknown (ex : List Extra) : Bool := ex.any fun e => e == .unknown
+
+/-- lazy / creating branch of `set()`: an unknown keyword is refused before anything is changed -/
+def precheck (ex : List Extra) (k : Prog) : Prog :=
+  if hasUnknown ex then .fail .typeError else k
 
 def asgOf (kw : List (Nat × In)) : List (Nat × Val) := kw.map fun a => (a.1, a.2.val)
 
@@ -330,10 +353,10 @@ def sortAsg (asg : List (Nat × Val)) : List (Nat × Val) := asg.foldr insertAsg
 def setProg (sch : Schema) (c id : Nat) (kw : List (Nat × In)) (ex : List Extra) (k : Prog) : Prog :=
   let asg := asgOf kw
   if (clsOf sch c).lazy then
-    .event 1 <| validates kw <| .mem (.pend c id asg) <| extras ex <|
+    .event 1 <| validates kw <| precheck ex <| .mem (.pend c id asg) <| extras sch c id ex <|
       (if asg.isEmpty then k else .mem (.dirty c id true) k)
   else
-    .event 1 <| validates kw <| extras ex <|
+    .event 1 <| validates kw <| extras sch c id ex <|
       (if asg.isEmpty then .mem (.cache c id asg) (.event 2 k)
        else .stmt (.update c id (sortAsg asg)) <| .mem (.cache c id asg) <| .event 2 k)
 
@@ -361,7 +384,7 @@ def createProg (sch : Schema) (c : Nat) (id? : Option Nat) (missing : Bool) (kw 
   let vals := valsOf (clsOf sch c).cols.length (asgOf kw)
   .event 3 <|
   (if missing then .fail .typeError else
-   validates kw <| extras ex <|
+   validates kw <| precheck ex <| extrasPure ex <|
    .stmt (.insert c id? vals) <| .dyn fun s =>
      let id := s.lastId
      .mem (.addInst c id vals) <| .stmt (.select c) <| .mem (.reload c id) <| k id)
@@ -426,23 +449,34 @@ def destroyProg (sch : Schema) : Nat → Nat → Nat → Prog → Prog
       .event 5 <|
       cl.joins.foldr (fun j acc => .stmt (.delLinks j.tab j.side id) acc) <|
       (List.range sch.length).foldr (fun kidx acc => depEntry (destroyProg sch fuel) sch c id kidx acc) <|
-      .mem (.obsolete c id) <| .stmt (.delete c id) <| .mem (.unreg c id) <| .event 6 k
+      .stmt (.delete c id) <| .mem (.obsolete c id) <| .mem (.unreg c id) <| .event 6 k
     match cl.parent with
     | some p => destroyProg sch fuel p id own
     | none => own
 
 def fuelOf (s : St) : Nat := (s.core.tabs.map List.length).sum + 3
 
-/-- `InheritableSQLObject._create` of a child class: parent row first; the child's own
-    `_create` runs under `try … except Exception: self._parent.destroySelf(); raise` -/
+/-- `InheritableSQLObject._create`, any depth; levels leaf first, each with its class and its
+    keywords in validation order.  The parent instance is created first (recursively: its own
+    `_create` creates the grandparent …); the level's own `_create` then runs under
+    `try … except BaseException: self._parent.destroySelf(); raise` (the inheritable
+    `destroySelf` of the parent instance removes the ancestors' rows too). -/
+def createInh (sch : Schema) (fuel : Nat) : List (Nat × List (Nat × In)) → (Nat → Prog) → Prog
+  | [], k => k 0
+  | [(c, kw)], k => createProg sch c none false kw [] k
+  | (c, kw) :: (p, pkw) :: rest, k =>
+    let cvals := valsOf (clsOf sch c).cols.length (asgOf kw)
+    createInh sch fuel ((p, pkw) :: rest) fun pid =>
+      .guard
+        (validates kw <| .stmt (.insert c (some pid) cvals) <| .mem (.addInst c pid cvals) <|
+          .stmt (.select c) <| .mem (.reload c pid) .done)
+        (destroyProg sch fuel p pid <|
+          -- the destroyed parent instances are unreachable now
+          (((p, pkw) :: rest).foldr (fun a acc => .mem (.drop a.1 pid) acc) .done))
+        (k pid)
+
 def createChildProg (sch : Schema) (fuel : Nat) (c p : Nat) (pkw ckw : List (Nat × In)) : Prog :=
-  let cvals := valsOf (clsOf sch c).cols.length (asgOf ckw)
-  createProg sch p none false pkw [] fun pid =>
-    .guard
-      (validates ckw <| .stmt (.insert c (some pid) cvals) <| .mem (.addInst c pid cvals) <|
-        .stmt (.select c) <| .mem (.reload c pid) .done)
-      (destroyProg sch fuel p pid <| .mem (.drop p pid) .done)
-      .done
+  createInh sch fuel [(c, ckw), (p, pkw)] fun _ => .done
 
 inductive Op
   /-- `obj.col = v` -/
@@ -455,6 +489,8 @@ inductive Op
   | create (c : Nat) (missing : Bool) (kw : List (Nat × In)) (ex : List Extra)
   /-- `Child(…)` of an inheritable pair: parent keywords, child keywords -/
   | createChild (c : Nat) (pkw ckw : List (Nat × In))
+  /-- `Leaf(…)` of an inheritable chain of any depth: (class, keywords) leaf first -/
+  | createChain (levels : List (Nat × List (Nat × In)))
   /-- `obj.destroySelf()` -/
   | destroy (c id : Nat)
   deriving Repr
@@ -468,6 +504,7 @@ def progOf (sch : Schema) (s : St) : Op → Prog
     match (clsOf sch c).parent with
     | some p => createChildProg sch (fuelOf s) c p pkw ckw
     | none => createProg sch c none false ckw [] fun _ => .done
+  | .createChain levels => createInh sch (fuelOf s) levels fun _ => .done
   | .destroy c id => destroyProg sch (fuelOf s) c id .done
 
 /-- one operation, with an optional database error injected at its k-th statement -/
